@@ -183,7 +183,13 @@ pub fn scale_family() -> Vec<(String, Cfg)> {
 
 /// Lookahead sub-family for C02: every lookahead automaton against its pattern.
 fn lookahead_family(k: usize) -> Vec<Cfg> {
-    let las: Vec<String> = g_upto(k);
+    let mut las: Vec<String> = g_upto(k);
+    // lookahead expressions that match nothing but the empty string (the compiled automaton
+    // exists and accepts no string at all), in both polarities each
+    for e in ["", "()", "(|)", "a{0}", "()*", "(a{0})+", "(()|())?"] {
+        las.push(e.to_string());
+        las.push(e.to_string());
+    }
     let mut v = vec![];
     for (i, l) in las.iter().enumerate() {
         let positive = i % 2 == 0;
@@ -265,7 +271,7 @@ pub fn run(prop: &'static str, tier: Tier) -> ! {
     for a in accs {
         merge(&mut total, a);
     }
-    families.push(json!({"family": format!("lookahead automata: every pattern of G({lk}) as positive/negative lookahead"), "configurations": lf.len(), "exhaustive": true}));
+    families.push(json!({"family": format!("lookahead automata: every pattern of G({lk}) and seven spellings of the empty expression as positive/negative lookahead"), "configurations": lf.len(), "exhaustive": true}));
 
     // 3. scale sub-family
     let sf = scale_family();
